@@ -29,6 +29,8 @@ pub struct Campaign {
     pub target: String,
     pub runs: u64,
     pub crashes: Vec<Vec<u8>>,
+    /// per element of `crashes`: the artifact kind (`crash`, `timeout`, `oom`)
+    pub kinds: Vec<String>,
     pub corpus_files: usize,
     pub log_tail: String,
 }
@@ -106,12 +108,14 @@ pub fn run_campaign(ctx: &Ctx, target: &str, secs: u64, jobs: usize, from_empty:
         }
     }
     let mut crashes = vec![];
+    let mut kinds = vec![];
     if let Ok(rd) = std::fs::read_dir(&artifacts) {
         for e in rd.flatten() {
             let n = e.file_name().to_string_lossy().to_string();
             if n.starts_with("crash-") || n.starts_with("timeout-") || n.starts_with("oom-") {
                 if let Ok(b) = std::fs::read(e.path()) {
                     crashes.push(b);
+                    kinds.push(n.split('-').next().unwrap_or("crash").to_string());
                 }
             }
         }
@@ -120,5 +124,5 @@ pub fn run_campaign(ctx: &Ctx, target: &str, secs: u64, jobs: usize, from_empty:
         return Err(format!("cargo fuzz failed: {}", text.chars().rev().take(1500).collect::<String>().chars().rev().collect::<String>()));
     }
     let tail: String = all.lines().rev().take(6).collect::<Vec<_>>().join(" | ");
-    Ok(Campaign { target: target.to_string(), runs, crashes, corpus_files, log_tail: tail })
+    Ok(Campaign { target: target.to_string(), runs, crashes, kinds, corpus_files, log_tail: tail })
 }
